@@ -306,31 +306,32 @@ def c19_total(term, out):
     out.outcomes.add(("sev", sev.name))
     import fickling
 
-    rec = _LoadsRecorder()
-    orig = pickle.loads
-    pickle.loads = rec
-    try:
+    for th in (Severity.LIKELY_SAFE, Severity.SUSPICIOUS, Severity.LIKELY_UNSAFE):
+        rec = _LoadsRecorder()
+        orig = pickle.loads
+        pickle.loads = rec
         try:
-            fickling.load(io.BytesIO(term.data))
-            raised = None
-        except UnsafeFileError as e:
-            raised = e
-        except Exception as e:  # noqa: BLE001
-            out.violate(PROP, f"C19|loader-raises|{type(e).__name__}|{shape}",
-                        f"fickling.load raised {type(e).__name__}: {e} instead of returning/UnsafeFileError for {_short(src, 160)}",
-                        term.replay(), len(term.data))
-            return
-    finally:
-        pickle.loads = orig
-    out.stats.inc("loader_calls")
-    if raised is not None:
-        if raised.info != d:
-            out.violate(PROP, f"C19|info-differs|{shape}",
-                        f"UnsafeFileError.info {_short(raised.info)} != check_safety().to_dict() {_short(d)}",
-                        term.replay(), len(term.data))
-        out.stats.inc("loader_raised_unsafe")
-    else:
-        out.stats.inc("loader_returned")
+            try:
+                fickling.load(io.BytesIO(term.data), max_acceptable_severity=th)
+                raised = None
+            except UnsafeFileError as e:
+                raised = e
+            except Exception as e:  # noqa: BLE001
+                out.violate(PROP, f"C19|loader-raises|{type(e).__name__}|{shape}",
+                            f"fickling.load raised {type(e).__name__}: {e} instead of returning/UnsafeFileError for {_short(src, 160)}",
+                            term.replay(), len(term.data))
+                return
+        finally:
+            pickle.loads = orig
+        out.stats.inc("loader_calls")
+        if raised is not None:
+            if raised.info != d:
+                out.violate(PROP, f"C19|info-differs|threshold={th.name}|{shape}",
+                            f"threshold {th.name}: UnsafeFileError.info {_short(raised.info)} != check_safety().to_dict() {_short(d)}",
+                            term.replay(), len(term.data))
+            out.stats.inc("loader_raised_unsafe")
+        else:
+            out.stats.inc("loader_returned")
 
 
 def _c19_shape(src):
